@@ -1,18 +1,12 @@
-import I18n.Generated.PyFmtConv
+import I18n.Model.PyFmtG
 /-!
 # `Conversion.__init__` / `FormatString.add_argument` regenerated from `lib/strformat/python.py` equal the hand-written model
 -/
 set_option linter.unusedSimpArgs false
 set_option linter.unusedVariables false
 namespace I18n.PyFmt.Gen
-open I18n I18n.PyFmt I18n.PyFmt.Py I18n.Generated
+open I18n I18n.PyFmt I18n.PyFmt.Py I18n.PyFmt.G I18n.Generated
 open I18n.Generated.PyFormatTables
-
-/-- the keyword arguments `width=`, `var_width=`, `prec=`, `var_prec=` the scanner passes for a directive -/
-def widthArg (d : Directive) : Option Int := match d.width with | .star => none | .num n => some (n : Int)
-def varWidth (d : Directive) : Bool := match d.width with | .star => true | .num _ => false
-def precArg (d : Directive) : Option Int := match d.prec with | some (.num n) => some (n : Int) | _ => none
-def varPrec (d : Directive) : Bool := match d.prec with | some .star => true | _ => false
 
 /-- a loop over `l.map f` whose body is one step of the recursive function `g` -/
 theorem forEach_map {α β σ ε : Type} (f : β → α) (body : α → σ → Except ε σ) (g : List β → σ → Except ε σ)
@@ -143,19 +137,19 @@ macro_rules
   | `(tactic| conv_prec $st) => `(tactic| (
       cases prec with
       | none =>
-        simp only [varPrec, precArg, Bool.false_eq_true, if_false, Option.map]
+        simp only [varPrecOf, precArgOf, Bool.false_eq_true, if_false, Option.map]
         conv_key
       | some p =>
         cases p with
         | star =>
-          simp only [varPrec, precArg, Option.isNone, if_true, add_argument_eq, variablePrecision]
+          simp only [varPrecOf, precArgOf, Option.isNone, if_true, add_argument_eq, variablePrecision]
           cases ha : addArgument $st none ⟨.prec, variablePrecisionType, st.items.length⟩ with
           | error e => simp [Except.map]
           | ok st4 =>
             simp only []
             conv_key
         | num n =>
-          simp only [varPrec, precArg, Bool.false_eq_true, if_false, cast_gt, cast_gt3, Option.map]
+          simp only [varPrecOf, precArgOf, Bool.false_eq_true, if_false, cast_gt, cast_gt3, Option.map]
           by_cases hn : n > SSIZE_MAX
           · simp [hn, Except.map]
           · simp only [hn, decide_false, decide_true, Bool.false_eq_true, if_false, Bool.and_false, Bool.and_true]
@@ -178,14 +172,14 @@ macro_rules
   | `(tactic| conv_width) => `(tactic| (
       cases width with
       | star =>
-        simp only [varWidth, widthArg, Option.isNone, if_true, add_argument_eq, variableWidth]
+        simp only [varWidthOf, widthArgOf, Option.isNone, if_true, add_argument_eq, variableWidth]
         cases ha : addArgument st2 none ⟨.width, variableWidthType, st.items.length⟩ with
         | error e => simp [Except.map]
         | ok st3 =>
           simp only []
           conv_prec st3
       | num n =>
-        simp only [varWidth, widthArg, intOfOpt, Bool.false_eq_true, if_false, cast_gt, Option.map]
+        simp only [varWidthOf, widthArgOf, intOfOpt, Bool.false_eq_true, if_false, cast_gt, Option.map]
         by_cases hn : n > SSIZE_MAX
         · simp [hn, Except.map]
         · simp only [hn, decide_false, Bool.false_eq_true, if_false]
@@ -193,7 +187,7 @@ macro_rules
 
 set_option maxHeartbeats 4000000 in
 theorem conversion_eq (w : Bool) (st : St) (s : List Char) (d : Directive) (hs : s.getLast? = some d.conv) :
-    PyFmtConv.Conversion.__init__ w st s d.key d.flags (widthArg d) (varWidth d) (precArg d) (varPrec d) d.length d.conv
+    PyFmtConv.Conversion.__init__ w st s d.key d.flags (widthArgOf d) (varWidthOf d) (precArgOf d) (varPrecOf d) d.length d.conv
       = (conversion w st d).map (fun r => (r.2.toList, r.1)) := by
   obtain ⟨key, flags, width, prec, length, conv⟩ := d
   simp only [PyFmtConv.Conversion.__init__, conversion, strLast, hs, objectId, decide_true, if_true, ite_ok, checkFlags]
